@@ -298,6 +298,7 @@ func (u *Unit) applyContract(fr *Frame, st *State, ct *Contract, sig *types.Sign
 		u.checkCallFrame(st, items, false, pos, key)
 		u.havocItems(st, havoc)
 	}
+	var iterInv []*Term // invariant of an iterated closure: holds after the iteration if it ended without error
 	if pname := ct.Flags["iterates"]; pname != "" {
 		// iteration schema: the callee calls its function argument any number of
 		// times (jx.Decoder.Arr/Obj, ...). The closure's own contract is used as the
@@ -354,7 +355,7 @@ func (u *Unit) applyContract(fr *Frame, st *State, ct *Contract, sig *types.Sign
 				u.havocItems(st, items)
 			}
 			for _, r := range cc.Requires {
-				u.assume(st, u.evalBoolF(cenv, st, r.Expr))
+				iterInv = append(iterInv, u.evalBoolF(cenv, st, r.Expr))
 			}
 			u.fvCall = saved
 		}
@@ -401,6 +402,16 @@ func (u *Unit) applyContract(fr *Frame, st *State, ct *Contract, sig *types.Sign
 			results = append(results, u.freshVal(st, rs.At(i).Type(), "ret_"+shortName(key)))
 			rtypes = append(rtypes, rs.At(i).Type())
 		}
+	}
+	if len(iterInv) > 0 {
+		inv := And(iterInv...)
+		if rs.Len() == 1 {
+			if rt, ok := results[0].(*Term); ok && rt.Sort == SIface {
+				// the iteration stops at the first error: the invariant is only known to hold if none occurred
+				inv = Implies(Eq(rt, NilIface), inv)
+			}
+		}
+		u.assume(st, inv)
 	}
 	env := &Env{u: u, st: st, old: old, vars: cloneVars(vars), pkgPath: ct.PkgPath, results: results, resultTypes: rtypes, fvOverride: u.fvCallOrEmpty()}
 	for i := 0; i < rs.Len(); i++ {
